@@ -36,11 +36,21 @@ VARIANTS = [
       "self.bye_penalty: Final[int] = (2 * int(instance.max())) + 1",
       "self.bye_penalty: Final[int] = (2 * int(instance.max()))", "fire",
       "D8.2"),
-    V("upper-bound-days", P,
+    V("silent-upper-bound-looser", P,
       "        days: Final[int] = (n - 1) * rounds\n"
       "        return n * days * self.bye_penalty",
       "        days: Final[int] = n * rounds\n"
+      "        return n * days * self.bye_penalty", "silent", "",
+      "a larger bound is still a valid bound (was demanded to be equal "
+      "before D8.3)"),
+    V("upper-bound-one-day-short", P,
+      "        days: Final[int] = (n - 1) * rounds\n"
+      "        return n * days * self.bye_penalty",
+      "        days: Final[int] = (n - 2) * rounds\n"
       "        return n * days * self.bye_penalty", "fire", "D8.2"),
+    V("upper-bound-without-penalty", P,
+      "        return n * days * self.bye_penalty",
+      "        return n * days * int(self.instance.max())", "fire", "D8.2"),
     V("evaluate-wrong-penalty", P,
       "return game_plan_length(x, x.instance, self.bye_penalty)",
       "return game_plan_length(x, x.instance, 1)", "fire", "D8.2"),
